@@ -92,21 +92,24 @@ def dropLastWs : List Str → List Str
   | [c] => if isWs c then [] else [c]
   | c :: d :: t => c :: dropLastWs (d :: t)
 
+/-- `if chunks and len(chunks[-1]) > width: self._handle_long_word(chunks, cur_line, cur_len, width)`
+on `f` = (the line so far, what remains). -/
+def handleLong (width : Int) (f : List Str × List Str) : List Str × List Str :=
+  match f.2 with
+  | r :: rs =>
+    if (r.length : Int) > width then
+      let spaceLeft : Nat := if width < 1 then 1 else (width - (f.1.flatten.length : Int)).toNat
+      let e := breakEnd r spaceLeft
+      (f.1 ++ [r.take e], r.drop e :: rs)
+    else f
+  | [] => f
+
 /-- One pass of the outer `while chunks:` loop of `_wrap_chunks` on a non-empty chunk list `c :: t`.
 `first` = "no line has been emitted yet" (`not lines`). Returns (the chunks of the line, the rest). -/
 def step (W : Nat) (indent : Nat) (first : Bool) (c : Str) (t : List Str) : List Str × List Str :=
   let width : Int := (W : Int) - (if first then (indent : Int) else 0)
   let chunks := if !first && isWs c then t else c :: t
-  let f := fill width 0 chunks
-  let cr : List Str × List Str :=
-    match f.2 with
-    | r :: rs =>
-      if (r.length : Int) > width then
-        let spaceLeft : Nat := if width < 1 then 1 else (width - (f.1.flatten.length : Int)).toNat
-        let e := breakEnd r spaceLeft
-        (f.1 ++ [r.take e], r.drop e :: rs)
-      else f
-    | [] => f
+  let cr := handleLong width (fill width 0 chunks)
   (dropLastWs cr.1, cr.2)
 
 /-- The outer loop. Returns the lines WITHOUT their indentation; the initial indentation goes to the
